@@ -67,6 +67,13 @@ def axes_choices(ndim, tuples=True):
     return out
 
 
+def npint(rng, ax):
+    """the same axis as a numpy integer now and then (what numpy.argmax / a loop over numpy.arange hand over, D46)"""
+    if isinstance(ax, int) and not isinstance(ax, bool) and rng.random() < .25:
+        return numpy.int64(ax)
+    return ax
+
+
 def gen_linear(rng):
     sh = gen.choice(rng, [(3,), (4,), (2, 2), (2, 3), (4, 2), (2, 1, 3), (2, 2, 2), (1, 4)])
     fn = gen.choice(rng, ["sum", "cumsum", "mean", "diff", "ediff1d"])
@@ -78,8 +85,9 @@ def gen_linear(rng):
         spell = gen.choice(rng, ["numpoly", "numpy", "method", "add.reduce"])
         if spell == "add.reduce" and ax is None:
             spell = "numpoly"
-        impl = {"numpoly": lambda p: numpoly.sum(p, axis=ax, keepdims=kd), "numpy": lambda p: numpy.sum(p, axis=ax, keepdims=kd),
-                "method": lambda p: p.sum(axis=ax, keepdims=kd), "add.reduce": lambda p: numpy.add.reduce(p, axis=ax, keepdims=kd)}[spell]
+        axi = npint(rng, ax)
+        impl = {"numpoly": lambda p: numpoly.sum(p, axis=axi, keepdims=kd), "numpy": lambda p: numpy.sum(p, axis=axi, keepdims=kd),
+                "method": lambda p: p.sum(axis=axi, keepdims=kd), "add.reduce": lambda p: numpy.add.reduce(p, axis=axi, keepdims=kd)}[spell]
         ref = lambda E: numpy.sum(E, axis=(tuple(range(1, nd + 1)) if ax is None else shift(ax)), keepdims=kd)
         if ax is None and kd:
             ref = lambda E: numpy.sum(E, axis=tuple(range(1, nd + 1)), keepdims=True)
@@ -89,8 +97,9 @@ def gen_linear(rng):
         spell = gen.choice(rng, ["numpoly", "numpy", "method", "add.accumulate"])
         if spell == "add.accumulate" and ax is None:
             spell = "numpoly"
-        impl = {"numpoly": lambda p: numpoly.cumsum(p, axis=ax), "numpy": lambda p: numpy.cumsum(p, axis=ax),
-                "method": lambda p: p.cumsum(axis=ax), "add.accumulate": lambda p: numpy.add.accumulate(p, axis=ax)}[spell]
+        axi = npint(rng, ax)
+        impl = {"numpoly": lambda p: numpoly.cumsum(p, axis=axi), "numpy": lambda p: numpy.cumsum(p, axis=axi),
+                "method": lambda p: p.cumsum(axis=axi), "add.accumulate": lambda p: numpy.add.accumulate(p, axis=axi)}[spell]
         ref = (lambda E: numpy.cumsum(E.reshape(E.shape[0], -1), axis=1)) if ax is None else (lambda E: numpy.cumsum(E, axis=shift(ax)))
         return a, impl, ref, {"fn": fn, "axis": ax, "spelling": spell}
     if fn == "mean":
@@ -100,8 +109,9 @@ def gen_linear(rng):
         ax = gen.choice(rng, axes_choices(nd))
         kd = bool(rng.integers(2))
         spell = gen.choice(rng, ["numpoly", "numpy", "method"])
-        impl = {"numpoly": lambda p: numpoly.mean(p, axis=ax, keepdims=kd), "numpy": lambda p: numpy.mean(p, axis=ax, keepdims=kd),
-                "method": lambda p: p.mean(axis=ax, keepdims=kd)}[spell]
+        axi = npint(rng, ax)
+        impl = {"numpoly": lambda p: numpoly.mean(p, axis=axi, keepdims=kd), "numpy": lambda p: numpy.mean(p, axis=axi, keepdims=kd),
+                "method": lambda p: p.mean(axis=axi, keepdims=kd)}[spell]
         ref = lambda E: numpy.mean(E, axis=(tuple(range(1, nd + 1)) if ax is None else shift(ax)), keepdims=kd)
         return a, impl, ref, {"fn": fn, "axis": ax, "keepdims": kd, "spelling": spell}
     if fn == "diff":
@@ -117,7 +127,8 @@ def gen_linear(rng):
                 # a wider type than the operand's: the result carries the fraction (seeded change C10-7)
                 val = (2 * val + 1) / 2
             kw[which] = val
-        impl = lambda p: numpoly.diff(p, n=n, axis=ax, **kw)
+        axi = npint(rng, ax)
+        impl = lambda p: numpoly.diff(p, n=n, axis=axi, **kw)
         # prepend/append constants are not linear in the operand: handle by the affine part separately
         ref = lambda E: numpy.diff(E, n=n, axis=shift(ax), **{k: 0 for k in kw})
         return a, impl, ref, {"fn": fn, "axis": ax, "n": n, **kw}
@@ -207,12 +218,13 @@ def run_prod(ctx, rng, n, monitor):
         kd = bool(rng.integers(2))
         spell = gen.choice(rng, ["numpoly", "numpy", "method"])
         groups, oshape = prod_groups(sh, ax, kd)
-        cases.append((a, ax, kd, spell, oshape))
+        cases.append((a, ax, kd, spell, oshape, npint(rng, ax)))
         drv.append({"id": len(drv), "op": "prodgroups", "opts": {"retain_coefficients": False, "retain_names": True},
                     "a": strip(a), "shape": oshape, "groups": groups})
     answers = run_driver(drv)
-    for (a, ax, kd, spell, oshape), model in zip(cases, answers):
-        info = {"fn": "prod", "axis": list(ax) if isinstance(ax, tuple) else ax, "keepdims": kd, "spelling": spell}
+    for (a, ax, kd, spell, oshape, axi), model in zip(cases, answers):
+        info = {"fn": "prod", "axis": list(ax) if isinstance(ax, tuple) else ax, "keepdims": kd, "spelling": spell,
+                "axis_type": type(axi).__name__}
         case = {"kind": "prod", "a": a, **info}
         tags = ["fn:prod", f"spelling:{spell}"] + (["axis-tuple", "axis-tuple-keepdims" if kd else "axis-tuple-nokeepdims"] if isinstance(ax, tuple) else []) + (["keepdims"] if kd else [])
         p = gen.materialize(a, a["as"])
@@ -220,8 +232,8 @@ def run_prod(ctx, rng, n, monitor):
         ctx.count("fn=prod")
         if len(a["terms"]) >= 2:
             ctx.nontrivial_add(("prod", ctx.evaluations))
-        f = {"numpoly": lambda q: numpoly.prod(q, axis=ax, keepdims=kd), "numpy": lambda q: numpy.prod(q, axis=ax, keepdims=kd),
-             "method": lambda q: q.prod(axis=ax, keepdims=kd)}[spell]
+        f = {"numpoly": lambda q: numpoly.prod(q, axis=axi, keepdims=kd), "numpy": lambda q: numpy.prod(q, axis=axi, keepdims=kd),
+             "method": lambda q: q.prod(axis=axi, keepdims=kd)}[spell]
         try:
             with monitor.watch("C10:prod", p):
                 got = f(p)
